@@ -78,6 +78,18 @@ func init() {
 		NotCovered: "boolean algebra of And/Or/Not, group lookup data, the calling-hash shortcut's interaction with dynamic scripts",
 	})
 	register(&PropertySpec{
+		ID: "C09",
+		Rules: []RuleSpec{
+			{"lock-pairing", "in pkg/core/storage every mutex acquired is released on every exit (conditional wrappers analysed for shared stores; the isSync-correlated unlock/relock of persist included)", func(c *Ctx) { lockPairingPkgs(c, []string{stPkg}, storageAssume, 10) }},
+			{"lockset", "every access of mem/stor/ps of a shared MemoryStore/MemCachedStore happens under the store's mutex (write lock for writes) or in a caller-holds-lock function whose call sites hold it; a function that reads a cache map and ps for one answer does so in one critical section; seek gets matching lockers", ruleStoreLockset},
+			{"swap-order", "persist replaces mem/stor/ps only under the write lock inside the plock bracket, installs the tempstore before the lower write, restores ps only after it returned, and merges concurrent writes into both old maps on failure", ruleSwapOrder},
+			{"stor-routing", "chooseMap routes exactly the contract-storage prefixes to stor; no keyed access to mem/stor bypasses it; GetStorageChanges returns stor", ruleStorRouting},
+			{"backend-tx", "every BoltDB/LevelDB mutation happens inside a transaction; a change set is one transaction committed on the success path", ruleBackendTx},
+			{"seek-prefix-owned", "a seek range built from the DAO's reusable key buffer is copied before being handed to a seek whose callback may re-enter the DAO", ruleSeekPrefixOwned},
+		},
+		NotCovered: "the merge algorithm of performSeek, range translation for the disk backends, ordering/duplicates, search depth — all value-level",
+	})
+	register(&PropertySpec{
 		ID: "C07",
 		Rules: []RuleSpec{
 			{"admit-dominators", "every admission check of verifyAndPoolTx (script, expiry, VUB window, policy, size, network fee, on-chain/conflict record, witnesses with the remaining fee, attributes) gates pool.Add on every CFG path", ruleAdmitDominators},
